@@ -12,6 +12,7 @@ Case grammar sent to `drv_validators`:
     CASE <id> <validation enabled 0|1>
     FT/KEY/VAL <tokens>          PRE <hex of the field's bytes before>
     OBS ok | err <ExceptionClass>   POST <hex after>   OUT <1 if a byte outside the field changed>   RB <scalars read back>
+    MSG <offset of the field in the top-level message> <hex of the whole message before> <hex after>     (optional)
     END
     CTX <id> / EV e0|e1|xn|xe ... / FLAGS 0|1 ... / END     (disable_message_validation histories)
 """
@@ -44,6 +45,7 @@ def b2f(b: int) -> float:
     return struct.unpack("<d", struct.pack("<Q", b))[0]
 
 
+MSG_MAX = 4096          # whole-message bytes cross the protocol up to this size
 F32MAX = b2f(0x47EFFFFFE0000000)
 F32THR = b2f(0x47EFFFFFF0000000)          # 2^128 - 2^103: first double that rounds to inf
 NAN = 0x7FF8000000000000
@@ -450,7 +452,11 @@ def run_case(cid: str, case: Dict[str, Any]) -> Tuple[List[str], Dict[str, Any]]
     rb = read_back(W, target, name, fty, key) if out == "ok" else []
     lines = [f"CASE {cid} {1 if case['en'] else 0}", "FT " + tok_fty(fty), "KEY " + tok_key(key), "VAL " + tok_val(val),
              "PRE " + hx(pre[off:off + fsz]), "OBS " + out, "POST " + hx(post[off:off + fsz]),
-             f"OUT {1 if outside else 0}", "RB " + " ".join(tok_scalar(r) for r in rb), "END"]
+             f"OUT {1 if outside else 0}", "RB " + " ".join(tok_scalar(r) for r in rb)]
+    if size <= MSG_MAX:
+        # projection `message`: the whole top-level object before / after, and where the field lives in it
+        lines.append(f"MSG {off} {hx(pre)} {hx(post)}")
+    lines.append("END")
     return lines, {"outcome": out, "changed": pre != post}
 
 
@@ -540,6 +546,140 @@ def run_ctx(cid: str, evs: List[str]) -> List[str]:
     finally:
         V._VALIDATION_ENABLED.set(True)
     return [f"CTX {cid}", "EV " + " ".join(evs), "FLAGS " + " ".join(flags), "END"]
+
+
+# ----------------------------------------------------------------------------------------------------------
+# the validation switch over whole programs (model: Stmt / execList in Model/ValidatorsExt.lean)
+# ----------------------------------------------------------------------------------------------------------
+#
+# program = {"cls": top class, "fill": bytes, "stmts": [stmt]}
+# stmt    = ("bind", i, obj)                        x_i = obj;  obj = {"path": [...], "field": name | None, "fty": ...}
+#         | ("assign", via, sub, tgt, key, val)     via = "f" | number i of a variable x_i; sub = how the field is reached from the
+#                                                    bound object: None (the bound array object itself) or a field name;
+#                                                    tgt = {"path", "field", "fty"} from the top message
+#         | ("block", ignore, [stmt])  |  ("try", [stmt])  |  ("raise",)
+#
+# protocol:  PROG id / INIT hex / PS ... (the program text) / PR ... (one line per assignment the real code executed)
+#            / FLAG 0|1 (context variable afterwards) / FINAL hex / END
+
+def _loc_of(W: World, top, obj) -> Tuple[int, tuple]:
+    """absolute offset and descriptor of {"path", "field", "fty"}; field None = the struct the path ends in"""
+    target, base = resolve(W, top, obj["path"])
+    if obj["field"] is None:
+        return base, ("strct", W.tid_for(type(target)), ctypes.sizeof(target))
+    return base + getattr(type(target), "_" + obj["field"]).offset, obj["fty"]
+
+
+def run_prog(cid: str, prog: Dict[str, Any]) -> Tuple[List[str], Dict[str, Any]]:
+    W = world()
+    V = W.V
+    V._VALIDATION_ENABLED.set(True)
+    cls = getattr(W, prog["cls"])
+    top = cls()
+    size = ctypes.sizeof(top)
+    fill = bytes(prog.get("fill") or b"")
+    if fill:
+        fill = (fill * (size // len(fill) + 1))[:size]
+        ctypes.memmove(ctypes.addressof(top), fill, size)
+    lines = [f"PROG {cid}", "INIT " + hx(bytes(top))]
+    views: Dict[int, Any] = {}
+    recs: List[str] = []
+    info = {"assign": 0, "outside": 0, "raised": 0, "via_view": 0, "max_depth": 0}
+
+    def emit(stmts):
+        for st in stmts:
+            k = st[0]
+            if k == "bind":
+                off, fty = _loc_of(W, top, st[2])
+                lines.append(f"PS bind {st[1]} {off} ; {tok_fty(fty)}")
+            elif k == "assign":
+                _, via, _sub, tgt, key, val = st
+                off, fty = _loc_of(W, top, tgt)
+                v = "f" if via == "f" else f"v{via}"
+                lines.append(f"PS assign {v} {off} ; {tok_fty(fty)} ; {tok_key(key)} ; {tok_val(val)}")
+            elif k == "block":
+                lines.append(f"PS block {1 if st[1] else 0}")
+                emit(st[2])
+                lines.append("PS end")
+            elif k == "try":
+                lines.append("PS try")
+                emit(st[1])
+                lines.append("PS end")
+            else:
+                lines.append("PS raise")
+
+    def do_assign(st, depth):
+        _, via, sub, tgt, key, val = st
+        if via != "f" and via not in views:
+            raise NameError(f"x_{via}")              # nothing is attempted, nothing is recorded (as in the model)
+        off, fty = _loc_of(W, top, tgt)
+        value = mat_value(W, val, 0)
+        flagvar = bool(V._VALIDATION_ENABLED.get())
+        pre = bytes(top)
+        out = "ok"
+        exc = None
+        try:
+            if via == "f":
+                target, _ = resolve(W, top, tgt["path"])
+                _apply(target, tgt["field"], key, value)
+            else:
+                view = views[via]
+                if sub is None:
+                    view[mat_key(key)] = value
+                else:
+                    _apply(view, sub, key, value)
+        except Exception as e:  # noqa: BLE001
+            out = "err " + err_name(e)
+            exc = e
+        post = bytes(top)
+        rb = []
+        if exc is None:
+            saved = V._VALIDATION_ENABLED.get()
+            target, _ = resolve(W, top, tgt["path"])
+            rb = read_back(W, target, tgt["field"], fty, key)
+            assert V._VALIDATION_ENABLED.get() == saved
+        info["assign"] += 1
+        info["outside"] += depth == 0
+        info["raised"] += exc is not None
+        info["via_view"] += via != "f"
+        info["max_depth"] = max(info["max_depth"], depth)
+        recs.append(f"PR {depth} {1 if flagvar else 0} {off} ; {tok_fty(fty)} ; {tok_key(key)} ; {tok_val(val)} ; {out} ; "
+                    f"{hx(pre)} ; {hx(post)} ; " + " ".join(tok_scalar(r) for r in rb))
+        if exc is not None:
+            raise exc
+
+    def run(stmts, depth):
+        for st in stmts:
+            k = st[0]
+            if k == "bind":
+                obj = st[2]
+                target, _ = resolve(W, top, obj["path"])
+                views[st[1]] = target if obj["field"] is None else getattr(target, obj["field"])
+            elif k == "assign":
+                do_assign(st, depth)
+            elif k == "block":
+                with V.disable_message_validation(st[1]):
+                    run(st[2], depth + (0 if st[1] else 1))
+            elif k == "try":
+                try:
+                    run(st[1], depth)
+                except Exception:  # noqa: BLE001  `except Exception: pass`
+                    pass
+            else:
+                raise _Leave()
+
+    emit(prog["stmts"])
+    try:
+        try:
+            run(prog["stmts"], 0)
+        except Exception:  # noqa: BLE001 the program as a whole ended by an exception
+            info["ended_by_exception"] = True
+        flag = bool(V._VALIDATION_ENABLED.get())
+    finally:
+        V._VALIDATION_ENABLED.set(True)
+    lines += recs
+    lines += [f"FLAG {1 if flag else 0}", "FINAL " + hx(bytes(top)), "END"]
+    return lines, info
 
 
 def ctx_histories(max_len: int) -> List[List[str]]:
